@@ -5,7 +5,8 @@ sys.path.insert(0, os.path.join(os.path.dirname(os.path.abspath(__file__)), ".."
 from nqlib import run_standard
 
 RULE = ("every byte string over {CR,LF,'.','a'} up to length %s (exhaustive; read chunkings full/1/2/3, short writes, and for the shorter ones "
-        "a failing read() at every position and a failing write()) plus seeded random messages up to 64 KiB (7 of 8 ending in a line end), "
+        "tiny substdio buffers, a failing read() at every position and a failing write()) plus seeded random messages up to 64 KiB (7 of 8 ending in a line end, "
+        "half with substdio buffer sizes 1..1024), "
         "run through the real qmail-remote.c blast() over the real substdio and safewrite (ASan+UBSan build of the working tree) and the Lean "
         "models rblast (pure) and oblast (the loop over Nq.Substdio, the harness's read/write plans as scripts: outcome, bytes taken by the socket, "
         "bytes left in smtptobuf, number of write() calls); chunking (theorems C06_chunking*): messages of 1-5 KiB each under 16 fixed read x write "
